@@ -109,6 +109,7 @@ pub struct DevState {
     pub len: u64,
     pub log: Vec<Rec>,
     pub logging: bool,
+    pub log_reads: bool,
     pub log_data: bool,
     pub op_idx: u32,
     /// device calls since arming
@@ -138,6 +139,7 @@ impl DevState {
             len,
             log: Vec::new(),
             logging: false,
+            log_reads: false,
             log_data: false,
             op_idx: 0,
             calls: 0,
@@ -292,7 +294,9 @@ impl DevState {
     }
 
     fn rec(&mut self, kind: Kind, off: u64, len: usize, data: Option<&[u8]>) {
-        if self.logging {
+        // reads and seeks are not logged (no oracle needs them; whole-FAT scans would produce tens of millions of
+        // records) unless asked for
+        if self.logging && (self.log_reads || matches!(kind, Kind::Write | Kind::Flush)) {
             let in_drop = fatfs::verif::drop_depth() > 0;
             let data = if self.log_data { data.map(<[u8]>::to_vec) } else { None };
             self.log.push(Rec {
